@@ -56,6 +56,8 @@ pub struct MapSpec {
     pub timing: Vec<TimingLine>,
     pub breaks: Vec<(f64, f64)>,
     pub objects: Vec<ObjSpec>,
+    /// write [Difficulty] before [General] (the mode is then only known after CircleSize was read)
+    pub difficulty_first: bool,
 }
 
 fn num(v: f64) -> String {
@@ -115,12 +117,19 @@ impl MapSpec {
         if let Some(v) = self.version {
             let _ = writeln!(s, "osu file format v{v}\n");
         }
-        let _ = writeln!(s, "[General]\nStackLeniency: {}\nMode: {}\n", self.stack_leniency, self.mode);
-        let _ = writeln!(s, "[Difficulty]\nHPDrainRate:{}\nCircleSize:{}\nOverallDifficulty:{}", self.hp, self.cs, self.od);
+        let general = format!("[General]\nStackLeniency: {}\nMode: {}\n\n", self.stack_leniency, self.mode);
+        let mut difficulty = format!("[Difficulty]\nHPDrainRate:{}\nCircleSize:{}\nOverallDifficulty:{}\n", self.hp, self.cs, self.od);
         if let Some(ar) = self.ar {
-            let _ = writeln!(s, "ApproachRate:{ar}");
+            let _ = writeln!(difficulty, "ApproachRate:{ar}");
         }
-        let _ = writeln!(s, "SliderMultiplier:{}\nSliderTickRate:{}\n", self.slider_mult, self.tick_rate);
+        let _ = writeln!(difficulty, "SliderMultiplier:{}\nSliderTickRate:{}\n", self.slider_mult, self.tick_rate);
+        if self.difficulty_first {
+            s.push_str(&difficulty);
+            s.push_str(&general);
+        } else {
+            s.push_str(&general);
+            s.push_str(&difficulty);
+        }
         if !self.breaks.is_empty() {
             let _ = writeln!(s, "[Events]");
             for (a, b) in &self.breaks {
@@ -156,7 +165,7 @@ impl MapSpec {
         let objs: Vec<String> = self.objects.iter().take(8).map(ObjSpec::render).collect();
         json!({
             "version": self.version, "mode": self.mode, "ar": self.ar, "cs": self.cs, "od": self.od, "hp": self.hp,
-            "slider_mult": self.slider_mult, "tick_rate": self.tick_rate,
+            "slider_mult": self.slider_mult, "tick_rate": self.tick_rate, "difficulty_section_first": self.difficulty_first,
             "timing": self.timing.iter().take(4).map(|t| format!("{},{},{},{}", num(t.time), t.beat_len, u8::from(t.uninherited), u8::from(t.kiai))).collect::<Vec<_>>(),
             "n_objects": self.objects.len(),
             "objects_head": objs,
@@ -179,6 +188,9 @@ pub struct MapProfile {
     pub long_gaps: bool,
     /// permit negative first time
     pub negative_start: bool,
+    /// share (1/n) of maps whose gaps are all 100-300 s: every strain section stays non-zero for hours
+    /// of map time (thousands of non-zero sections from a handful of objects); 0 = never
+    pub marathon_one_in: u32,
 }
 
 impl MapProfile {
@@ -190,6 +202,7 @@ impl MapProfile {
             adversarial: false,
             long_gaps: true,
             negative_start: true,
+            marathon_one_in: 40,
         }
     }
     pub const fn small(modes: &'static [u8], max_objects: usize) -> Self {
@@ -200,6 +213,7 @@ impl MapProfile {
             adversarial: false,
             long_gaps: true,
             negative_start: true,
+            marathon_one_in: 40,
         }
     }
     pub const fn adversarial(modes: &'static [u8], max_objects: usize) -> Self {
@@ -210,6 +224,7 @@ impl MapProfile {
             adversarial: true,
             long_gaps: true,
             negative_start: true,
+            marathon_one_in: 40,
         }
     }
 }
@@ -337,7 +352,7 @@ pub fn gen_map(t: &mut Tape, p: &MapProfile) -> MapSpec {
             0 => 5.0,
             1 => t.range(0, 10) as f64,
             2 => (t.range(0, 100) as f64) / 10.0,
-            _ => *t.pick(&[0.0, 10.0, 11.0, -1.0, 9.5, 0.5]),
+            _ => *t.pick(&[0.0, 10.0, 11.0, -1.0, 9.5, 0.5, 18.0]),
         }
     };
     let cs = if mode == 3 {
@@ -386,11 +401,12 @@ pub fn gen_map(t: &mut Tape, p: &MapProfile) -> MapSpec {
         time = *t.pick(&[16_777_216.0, 2_147_483_000.0, -2_147_483_000.0, 40_000_000.0]);
     }
     let keys = if mode == 3 { cs.clamp(1.0, 18.0).round() as i32 } else { 4 };
+    let marathon = p.marathon_one_in > 0 && t.chance(1, p.marathon_one_in);
     let mut objects: Vec<ObjSpec> = Vec::with_capacity(n);
     let mut prev_pos = None;
     for i in 0..n {
         if i > 0 {
-            let mut gap = gen_gap(t, p);
+            let mut gap = if marathon { t.range(100_000, 300_000) as f64 } else { gen_gap(t, p) };
             if t.chance(1, 16) {
                 gap += 0.5; // fractional times are legal in the format
             }
@@ -509,6 +525,7 @@ pub fn gen_map(t: &mut Tape, p: &MapProfile) -> MapSpec {
         timing,
         breaks,
         objects,
+        difficulty_first: t.chance(1, 10),
     }
 }
 
@@ -550,4 +567,6 @@ pub fn map_labels(spec: &MapSpec, info: &mut crate::engine::CaseInfo) {
     );
     info.label_if(spec.objects.windows(2).any(|w| w[1].time == w[0].time), "equal-times");
     info.label_if(spec.version.is_some_and(|v| v < 8), "version<8");
+    info.label_if(spec.difficulty_first, "difficulty-section-first");
+    info.label_if(n >= 8 && spec.objects.windows(2).all(|w| w[1].time - w[0].time >= 100_000.0), "marathon");
 }
